@@ -39,6 +39,35 @@ class ReqSim(Sim):
         self.t0 = None
         self.done_at = None
         self.log = []
+        # record how each attempt coroutine ended (which schedule the loop produced on a tie)
+        self.attempts = {}
+        for name in ('_make_direct_connection', '_make_indirect_connection'):
+            self._wrap(name)
+
+    def _wrap(self, name):
+        n = self.network
+        orig = getattr(n, name)
+
+        async def wrapped(*a, **k):
+            self.attempts[name] = 'running'
+            try:
+                r = await orig(*a, **k)
+                self.attempts[name] = 'ok'
+                return r
+            except asyncio.CancelledError:
+                self.attempts[name] = 'cancelled'
+                raise
+            except Exception:
+                self.attempts[name] = 'error'
+                raise
+        setattr(n, name, wrapped)
+
+    def _hop(self, fn, hops):
+        """run fn after `hops` further loop iterations at the same virtual instant"""
+        if hops <= 0:
+            fn()
+        else:
+            self.loop.call_soon(self._hop, fn, hops - 1)
 
     # broker: first connect is the server, later ones are the peer
     def _connect(self, host, port):
@@ -64,7 +93,7 @@ class ReqSim(Sim):
                     ep.drain_error = ConnectionResetError('reset')
                 self.peer_eps.append(ep)
                 fut.set_result(ep)
-        self.loop.call_later(sc.get('d_delay', 0), fire)
+        self.loop.call_later(sc.get('d_delay', 0), self._hop, fire, max(0, -sc.get('skew', 0)))
         return fut
 
     def _server_got(self, data):
@@ -103,7 +132,7 @@ class ReqSim(Sim):
                         self.tasks.append(self.net.accept_tasks[-1])
                         self.pierce_eps.append(ep)
                         ep.feed(frame(PeerPierceFirewall.Request(ticket).serialize(), bool(sc.get('pierce_obf'))))
-                    self.loop.call_later(sc.get('i_delay', 0), pierce)
+                    self.loop.call_later(sc.get('i_delay', 0), self._hop, pierce, max(0, sc.get('skew', 0)))
                 elif i == 'cannot':
                     self.loop.call_later(sc.get('i_delay', 0),
                                          lambda t=m.ticket: self.server_ep.feed(CannotConnect.Response(ticket=t).serialize()))
@@ -187,7 +216,11 @@ class ReqSim(Sim):
             'server_got': [x[1] for x in self.log if x[0] == 'server_got'],
             'inits': inits,
             'orphans': len(live_tasks),
-            'peer_eps_open': sum(1 for ep in self.peer_eps + self.pierce_eps if not ep.client_closed),
+            'attempts': dict(self.attempts),
+            # sockets a connection object of the client holds open (an endpoint whose connect result was dropped because the
+            # awaiting task was cancelled in the same instant is an artefact of the broker, not a socket of the client)
+            'peer_eps_open': sum(1 for ep in self.peer_eps + self.pierce_eps if not ep.client_closed
+                                 and any(getattr(rec.conn, '_writer', None) is ep.writer for rec in self.order)),
             'unhandled': len(self.loop.unhandled),
         }
         return r
